@@ -1,7 +1,7 @@
 (* Entry points of the pipe-level correspondence checks. *)
 From Coq Require Import String NArith List Bool.
 From GF Require Import Base.Res Base.Bytes Base.Layout Base.Gen Model.Msg Model.NF Model.Packet Model.ProdNF
-     Model.Pipe Spec.GenPipe.
+     Model.Pipe Spec.GenPipe Spec.RefStore.
 Import ListNotations.
 Local Open Scope string_scope.
 Open Scope N_scope.
@@ -17,7 +17,8 @@ Fixpoint toks_hist (l : list tok) : list (exporter * N * bytes) :=
 
 Definition c06_gen (stream seed i : N) : list tok * list tok :=
   let h := gcase gen_pipe_case seed i in
-  (TS "pipe" :: TS "netflow" :: TS "none" :: hist_toks h, nf_run empty_prodcfg init_pstate h).
+  (* expected: what the REFERENCE pipe (one flat map keyed by exporter, version, domain, id) shows *)
+  (TS "pipe" :: TS "netflow" :: TS "none" :: hist_toks h, rnf_run empty_prodcfg rinit_pstate h).
 
 Definition c06_run (inp : list tok) : list tok :=
   match inp with
